@@ -128,11 +128,21 @@ class Recorder:
                 fault = rec.faults['from']
             if rec.on_solve:
                 rec.on_solve(k, fault, entry['backend_limit'])
-            if fault is None:
-                st = orig(prob, solver, **kw)
-            else:
-                entry['fault'] = fault
-                st = rec.apply_fault(prob, solver, fault, orig, kw)
+            # the real back end must not be cut short by the WALL clock (a loaded machine would make the run depend on
+            # timing): the limit it was given is recorded above, time is scripted, limit stops are injected as faults
+            had_limit = be is not None and hasattr(be, 'timeLimit')
+            saved_limit = getattr(be, 'timeLimit', None)
+            if had_limit:
+                be.timeLimit = None
+            try:
+                if fault is None:
+                    st = orig(prob, solver, **kw)
+                else:
+                    entry['fault'] = fault
+                    st = rec.apply_fault(prob, solver, fault, orig, kw)
+            finally:
+                if had_limit:
+                    be.timeLimit = saved_limit
             entry['answer'] = rec.answer(prob)
             return st
         return solve
